@@ -5,7 +5,7 @@ log = sys.argv[1] if len(sys.argv) > 1 else '/verif/evidence_mutants.log'
 rows = []
 if os.path.exists(log):
     for line in open(log):
-        if line.startswith("('") and not re.match(r"\('c\d\d-(s[ab]|w\d[ab])-", line):
+        if line.startswith("('") and not re.match(r"\('c\d\d-(s[ab]|w\d[a-d])-", line):
             t = ast.literal_eval(line.strip())
             cls = t[4].replace('violation class=', '').split(' ')[0]
             if cls.startswith('VIOLATION'):
